@@ -10,6 +10,7 @@ pub mod c06;
 pub mod c07;
 pub mod c08;
 pub mod c09;
+pub mod c10;
 pub mod c11;
 pub mod c39;
 pub mod c12;
@@ -50,6 +51,7 @@ pub fn all() -> Vec<CheckDef> {
         CheckDef { id: "C07", shards: one, run: c07::run, replay: Some(c07::replay) },
         CheckDef { id: "C08", shards: one, run: c08::run, replay: Some(c08::replay) },
         CheckDef { id: "C09", shards: one, run: c09::run, replay: Some(c09::replay) },
+        CheckDef { id: "C10", shards: one, run: c10::run, replay: Some(c10::replay) },
         CheckDef { id: "C11", shards: one, run: c11::run, replay: Some(c11::replay) },
         CheckDef { id: "C12", shards: one, run: c12::run, replay: Some(c12::replay) },
         CheckDef { id: "C13", shards: one, run: c13::run, replay: Some(c13::replay) },
